@@ -91,3 +91,24 @@ package common
 //@   modifies nothing
 //@   ensures[ok]  (ret1 == nil) == DecOK(hexString)
 //@   ensures[val] __seqeq(ret0, KeyBytesOf(hexString))
+
+// LRU: a finite map with eviction (container/list internals are not modelled). Every construction site
+// in the repository passes a nil eviction callback.
+//@ ghost field *LRU m gmap[interface{}, interface{}]
+
+//@ func NewLRU(size int, onEvict EvictCallback) *LRU
+//@   trusted LRU is assumed to behave as a finite map with eviction
+//@   modifies nothing
+//@   ensures[new] ret0 != nil && __fresh(ret0) && (forall k interface{} :: !__in(k, G_m(ret0)))
+
+//@ func (c *LRU) Add(key, value interface{}) bool
+//@   trusted LRU is assumed to behave as a finite map with eviction; onEvict is nil everywhere
+//@   requires c != nil
+//@   modifies G_m(c)
+//@   ensures[add] __in(key, G_m(c)) && G_m(c)[key] == value && (forall k interface{} :: __in(k, G_m(c)) && k != key ==> __in(k, old(G_m(c))) && G_m(c)[k] == old(G_m(c))[k])
+
+//@ func (c *LRU) Get(key interface{}) (value interface{}, ok bool)
+//@   trusted LRU is assumed to behave as a finite map with eviction (recency order not modelled)
+//@   requires c != nil
+//@   modifies nothing
+//@   ensures[get] ok == __in(key, G_m(c)) && (ok ==> value == G_m(c)[key])
